@@ -22,6 +22,32 @@ CHECKS = {
             "no explored call panicked, aborted or hung (except listed known findings); sanitizer builds reported nothing on the hostile-length workload", "a panic, driver death or reproducible hang is the refuting observation; non-termination restated as bounded progress"),
     "C14": ("exploration", "runtime monitoring: length-arithmetic oracle (model field layout) at buffer / 65535 boundaries, one boundary call per fresh session", "6/C14",
             "every boundary call returned exactly the predicted length or the demanded Error::Input / failure", MODEL),
+    "C03": ("fault_enumeration", "runtime monitoring: fault enumeration over in-transit alterations of handshake messages, history oracle from the model's field layout", "6/C03",
+            "every enumerated alteration (all bit flips of fixed fields, all truncations, extensions, edits, substitutions) of every message was rejected by the read when an encrypted field is involved, and otherwise never led to both parties finishing without error", "which fields are encrypted follows from the independent token table; another initiator's message 0 is a valid initiation (inherent to Noise) and is judged only for later detection"),
+    "C04": ("fault_enumeration", "runtime monitoring: fault enumeration over hostile deliveries to transport reads (one per fresh session), accept-only-genuine oracle", "6/C04",
+            "every hostile delivery (all bit flips, truncations, extensions, reflection, cross-session, cross-direction, replay, wrong nonce) was refused and every genuine control accepted with its payload", "genuine = the register the peer's write produced, for this receiver and nonce (known by construction)"),
+    "C05": ("fault_enumeration", "runtime monitoring: delivery-schedule enumeration checked against a sequential model of the receiving nonce", "6/C05",
+            "for every enumerated schedule (exhaustive to the length bound, random longer) a delivery was accepted iff it was the next expected message and receiving_nonce() equalled the model after every op", "unique payload tags make the history unambiguous"),
+    "C08": ("exploration", "runtime monitoring: history oracle over sessions whose peers differ in exactly one context item", "6/C08",
+            "no explored pair with differing name / prologue / PSK / pre-shared static key both finished without error, and no transport message was accepted", "only agreement on the context is varied; no crypto model needed"),
+    "C09": ("exploration", "runtime monitoring: counter model on nonce getters after every op + trace rule on the nonce handed to the AEAD (recording resolver), boundary placement through the hook", "6/C09",
+            "getters equalled the model after every explored op, calls at 2^64-1 failed with State(Exhausted) and moved nothing, no enc/dec event carried 2^64-1", "stateful sender placed at the boundary via verif_set_sending_nonce"),
+    "C11": ("exploration", "runtime monitoring: call-sequence enumeration against a position/turn/phase automaton; indicators compared after every op", "6/C11",
+            "for every enumerated call sequence (exhaustive to the depth bound from every handshake position on 8 pattern shapes x both roles, random deeper on all patterns) results and turn/finished indicators equalled the automaton and the session still completed", "automaton uses only message count and one-way flag from the independent pattern table"),
+    "C12": ("exploration", "runtime monitoring: complete enumeration of builder configurations judged by a predicate derived from the token table", "6/C12",
+            "every enumerated (pattern, role, key subset, modifiers, resolver) build returned exactly Ok / the applicable error kind; built pairs never hit MissingKeyMaterial; an omitted PSK was reported as MissingPsk at the message needing it", "finite space enumerated completely (exhaustive: true)"),
+    "C13": ("exploration", "runtime monitoring: independent grammar recogniser as oracle over the full valid product, all single-edit mutants of sampled names, traps and random strings", "6/C13",
+            "every explored string was accepted iff grammatical, parsed fields named the components, the name was verbatim and every rejection was Error::Pattern", "psk numerals beyond psk0..psk9 / non-canonical are 'unspecified' and only field-checked"),
+    "C15": ("exploration", "runtime monitoring: sequence enumeration over rekey/message operations against a per-direction (key, nonce) model with the model's own REKEY", "6/C15",
+            "every message after a rekey was byte-identical to the model's, deliveries were accepted iff keys agreed, nonces were untouched by rekeys (exhaustive to the depth bound, random deeper)", "initial keys read from the recorded Cipher::set calls; REKEY/AEAD are the model's"),
+    "C16": ("exploration", "runtime monitoring: pure-function oracle per op over sequential orders and multi-threaded stress on a shared object; stateful twin; TSan and Miri in thorough", "6/C16",
+            "every stateless op in every explored order / thread equalled E(k, n, p) resp. its inverse and the stateful twin's n-th message; race detectors reported nothing (thorough)", "interleavings are sampled (distinct completion orders counted); sanitizers cover the pure-Rust back end"),
+    "C18": ("exploration", "runtime monitoring: differential against independent primitives (standards' test vectors, OpenSSL/libsodium cross-check) on the resolver objects", "6/C18",
+            "every explored hash/HMAC/HKDF/AEAD/REKEY/DH output of both back ends equalled the model; decrypt rejected every non-genuine input; generated key pairs were consistent and distinct", "objects driven as snow drives them"),
+    "C19": ("exploration", "runtime monitoring: output-buffer inspection after failed authenticated reads against the known random payload", "6/C19",
+            "no explored rejected read (cipher x back end x path x alteration x buffer size) left >= 16 consecutive plaintext bytes in the caller's buffer", "payloads are >= 32 pseudo-random bytes"),
+    "C20": ("exploration", "runtime monitoring: differential execution of one scripted scenario under all 9 back-end assignments + exhaustive fallback truth table on self-identifying stub resolvers", "6/C20",
+            "all 9 assignments produced identical bytes and observations at every step and completed; FallbackResolver returned exactly the first member providing each primitive", "scripted RNG identical across assignments"),
     "C17": ("exploration", "runtime monitoring: getter snapshot after every op vs. peer's model-computed public key and the token table", "6/C17",
             "get_remote_static() equalled the expectation in every snapshot on all three state types for every pattern x psk variant x DH x role", "public keys recomputed by the model's own X25519/P-256"),
 }
